@@ -29,7 +29,7 @@ type c02Case struct {
 func init() {
 	engine.Register(&engine.Check{
 		ID: "C02", Level: "model_checking",
-		Rule:   "BFS over operation histories (depth <=5 quick, <=6 thorough) on real Polygon/MultiPoint/MultiLineString/MultiPolygon/GeometryCollection objects; alphabet = Push(part) for a per-type part menu incl. empty parts, parts with empty sub-parts and the receiver's own part accessors (storage aliasing), Push(wrong-layout part, same and different stride), Reverse, Swap with a second geometry, g=g.Clone() keeping both sides live with their own models, switching between the two sides; start states: empty and three parts already pushed, for collections variadic Push with one bad member and SetLayout; invariants evaluated in every state against a list-of-parts model; states deduplicated on the full observable state incl. capacity",
+		Rule:   "BFS over operation histories (depth <=5 quick, <=6 thorough) on real Polygon/MultiPoint/MultiLineString/MultiPolygon/GeometryCollection objects; alphabet = Push(part) for a per-type part menu incl. empty parts, parts with empty sub-parts and the receiver's own part accessors (storage aliasing), Push(wrong-layout part, same and different stride), for polygons a Push while the polygon is lent to a MultiPolygon whose accessor result is pushed to as well (either order), Reverse, Swap with a second geometry, g=g.Clone() keeping both sides live with their own models, switching between the two sides; start states: empty and three parts already pushed, for collections variadic Push with one bad member and SetLayout; invariants evaluated in every state against a list-of-parts model; states deduplicated on the full observable state incl. capacity",
 		Run:    c02Run,
 		Replay: func(c *engine.Ctx, kind string, raw json.RawMessage) { c02Exec(c, decodeCase[c02Case](raw), nil) },
 		Assumptions: []string{
@@ -330,6 +330,40 @@ func c02Alphabet(k ref.Kind, l geom.Layout) []c02Op {
 				pushModel(s, s.m.parts[i])
 				return ""
 			}})
+		}
+		if k == ref.Polygon {
+			// the polygon is lent: pushed into a MultiPolygon whose accessor hands out a polygon q
+			// for it; then one more ring is pushed on the polygon itself and a different one on q,
+			// in either order. The polygon is still the list of the rings pushed on IT.
+			for _, ownFirst := range []bool{true, false} {
+				ownFirst := ownFirst
+				name := "lent to a MultiPolygon, then Push on the accessor's polygon and Push(menu3) on this one"
+				if ownFirst {
+					name = "lent to a MultiPolygon, then Push(menu3) on this one and Push on the accessor's polygon"
+				}
+				ops = append(ops, c02Op{name, func(s *c02State) string {
+					menu := partMenu(k, l)
+					mine, theirs := menu[3], menu[2]
+					mp := geom.NewMultiPolygon(l)
+					if err := mp.Push(s.g.(*geom.Polygon)); err != nil {
+						return "MultiPolygon.Push failed: " + err.Error()
+					}
+					q := mp.Polygon(0)
+					var e1, e2 error
+					if ownFirst {
+						e1 = pushPart(s.g, mine.MustBuild())
+						e2 = q.Push(theirs.MustBuild().(*geom.LinearRing))
+					} else {
+						e2 = q.Push(theirs.MustBuild().(*geom.LinearRing))
+						e1 = pushPart(s.g, mine.MustBuild())
+					}
+					if e1 != nil || e2 != nil {
+						return fmt.Sprintf("Push failed: %v %v", e1, e2)
+					}
+					pushModel(s, mine)
+					return ""
+				}})
+			}
 		}
 		for _, wl := range wrongLayouts(l) {
 			wl := wl
